@@ -534,7 +534,9 @@ impl CompressedEmbedding {
             return Self::Dense(Vec::new());
         }
 
-        let nnz = vector.iter().filter(|&&v| v.abs() > 1e-6).count();
+        // NaN is a value, not an absent component: `!(|v| <= eps)` keeps it (a plain
+        // `|v| > eps` is false for NaN and would store it as zero).
+        let nnz = vector.iter().filter(|&&v| !(v.abs() <= 1e-6)).count();
         // For 0.5 threshold: sparse if nnz <= len/2, i.e., nnz*2 <= len
         let use_sparse = nnz * 2 <= vector.len();
 
@@ -542,7 +544,7 @@ impl CompressedEmbedding {
             let mut positions = Vec::with_capacity(nnz);
             let mut values = Vec::with_capacity(nnz);
             for (i, &v) in vector.iter().enumerate() {
-                if v.abs() > 1e-6 {
+                if !(v.abs() <= 1e-6) {
                     if let Ok(pos) = u32::try_from(i) {
                         positions.push(pos);
                         values.push(v);
@@ -556,8 +558,10 @@ impl CompressedEmbedding {
             };
         }
 
-        // Try TT compression for high-dimensional dense vectors
-        if vector.len() >= TT_MIN_DIMENSION {
+        // Try TT compression for high-dimensional dense vectors. A vector holding NaN
+        // or infinities has no meaningful low-rank approximation (the decomposition
+        // would turn every component into NaN), so it is kept as it is.
+        if vector.len() >= TT_MIN_DIMENSION && vector.iter().all(|v| v.is_finite()) {
             if let Ok(config) = tensor_compress::TTConfig::for_dim(vector.len()) {
                 if let Ok(tt) = tensor_compress::tt_decompose(vector, &config) {
                     return Self::TensorTrain(tt);
